@@ -10,7 +10,7 @@ MANIFEST = dict(
 
 MODULES = ["Gozod.Proofs.C14"]
 THEOREMS = [
-    "Gozod.C14.c14_racefree", "Gozod.C14.c14_racefree_table", "Gozod.C14.c14_schema_ops_read_only",
+    "Gozod.C14.c14_racefree", "Gozod.C14.c14_racefree_table", "Gozod.C14.c14_schema_ops_read_only", "Gozod.C14.conflicts_complete",
     "Gozod.C14.locales_unsynchronised", "Gozod.C14.lazy_cache_unsynchronised",
 ]
 GEN = os.path.join(C.LEAN, "Gozod", "Gen", "LockSets.lean")
@@ -32,6 +32,8 @@ def regenerate(res):
     if rc != 0:
         return "translator failed: " + out[-2000:]
     new = open(os.path.join(d, "LockSets.lean")).read()
+    res._accessors_src = open(os.path.join(d, "accessors_gen.go")).read()
+    res.coverage["accessor_functions"] = res._accessors_src.count("{fn:")
     shutil.rmtree(d, ignore_errors=True)
     missing = [l for l in EXPECTED_LOCS if '"%s"' % l not in new]
     if missing:
@@ -44,13 +46,46 @@ def regenerate(res):
     return None
 
 
-def race_run(res):
-    ok, out = C.build_harness("C14", race=True)
+def conflicts(res):
+    """The cells of the regenerated table that falsify raceFree, computed by the Lean model itself (driver_c14
+    `conflicts`): [(loc, [fn, ...])]. Empty when the table is race-free (or the driver does not build)."""
+    ok, out = C.lake_build(["driver_c14"])
     if not ok:
-        return None, "race harness does not build:\n" + out[-3000:]
+        return []
+    import subprocess
+    try:
+        o = subprocess.run([C.driver_bin("C14")], input="c14 conflicts\n", capture_output=True, text=True, timeout=120).stdout
+    except Exception:
+        return []
+    line = [l for l in o.split("\n") if l.startswith("conflicts:")]
+    if not line or line[0] == "conflicts:":
+        return []
+    return [(t.split("=")[0], t.split("=")[1].split("+")) for t in line[0][len("conflicts:"):].split(",") if "=" in t]
+
+
+def build_race(gen_src):
+    """go build -race of harness/cmd/c14 with the accessor table regenerated from REPO's sources."""
+    with C.Lock("go"):
+        C.trim_gocache()
+        d = C.harness_dir()
+        p = os.path.join(d, "cmd", "c14", "accessors_gen.go")
+        if not os.path.exists(p) or open(p).read() != gen_src:
+            with open(p, "w") as f: f.write(gen_src)
+        binp = C.harness_bin("C14") + "-race"
+        os.makedirs(os.path.dirname(binp), exist_ok=True)
+        if os.path.exists(binp): os.unlink(binp)
+        rc, out = C.run(["go", "build", "-tags", "verif", "-race", "-o", binp, "./cmd/c14"], cwd=d, env=C.goenv(), timeout=1800)
+    return rc == 0, out
+
+
+def race_run(res, targets):
+    ok, out = build_race(res._accessors_src)
+    if not ok:
+        return None, "race harness does not build (accessor table regenerated from the sources):\n" + out[-3000:]
     rundir = os.path.join(C.BUILD, "run", "C14-%s-%d" % (res.tier, os.getpid()))
     shutil.rmtree(rundir, ignore_errors=True); os.makedirs(rundir)
-    rc, out = C.run([C.harness_bin("C14") + "-race", "-seed", str(res.seed), "-tier", res.tier, "-out", rundir],
+    tg = ",".join("%s=%s" % (loc, "+".join(fns)) for loc, fns in targets)
+    rc, out = C.run([C.harness_bin("C14") + "-race", "-seed", str(res.seed), "-tier", res.tier, "-out", rundir, "-targets", tg],
                     env=C.goenv(), timeout=3600)
     if rc != 0:
         return None, "race harness failed rc=%d:\n%s" % (rc, out[-3000:])
@@ -73,23 +108,54 @@ def race_run(res):
     return (ops, impl, model, stats), ""
 
 
+_SEED = [1]
+
+
 def describe(op):
-    return ("scenario %s of harness/cmd/c14 (built with -race); the race detector's report of this run is kept as "
-            "evidence/replay/C14-<seed>-race-<scenario>.txt" % C.op_body(op).split(" ")[2])
+    sc = C.op_body(op).split(" ")[2]
+    fn = sc.replace(":", "_").replace("/", "_")
+    txt = ("scenario %s of harness/cmd/c14 (built with -race; `cache:<loc>` / `target:<loc>` = the callable accessor functions of that "
+           "shared location from the regenerated lock-set table, hammered by the goroutines with arguments that miss and hit); re-run: "
+           "<harness binary> -scenario %s. The race detector's report / the crash of this run:" % (sc, sc))
+    for kind in ("race", "crash"):
+        p = os.path.join(C.EVDIR, "replay", "C14-%s-%s-%s.txt" % (_SEED[0], kind, fn))
+        if os.path.exists(p):
+            head = open(p, errors="replace").read().split("\n")[:60]
+            txt += "\n    [%s]\n    " % p + "\n    ".join(head)
+    return txt
 
 
 def run(res):
+    _SEED[0] = res.seed
     err = regenerate(res)
     if err:
         C.tie_broken(res, "translator C14/lock-sets", err)
         return res.finish()
     ok, detail = C.prove(res, MODULES, THEOREMS)
-    if not ok:
-        C.tie_broken(res, "proof Gozod.Proofs.C14 (regenerated lock-set table)", detail)
-    data, err = race_run(res)
+    # When the proof over the regenerated table breaks: the falsifying cells (location + functions) aim the race
+    # harness — goroutines hammering exactly those functions — and a race report / crash is the concrete failing
+    # execution. Only when none is found does the broken proof stand alone (no-failing-input-found).
+    targets = conflicts(res) if not ok else []
+    if targets:
+        res.notes.append("lock-set table conflicts: " + "; ".join("%s in %s" % (l, "+".join(f)) for l, f in targets))
+    data, err = race_run(res, targets)
     if data is None:
+        if not ok:
+            C.tie_broken(res, "proof Gozod.Proofs.C14 (regenerated lock-set table)", detail)
         C.tie_broken(res, "correspondence C14/race-scenarios", err)
         return res.finish()
+    if not ok:
+        locs = {l for l, _ in targets}
+        fns = {f for _, fs in targets for f in fs}
+        # a targeted / generic scenario of a conflicting location that races or crashes, or any scenario whose race
+        # report starts in one of the conflicting functions
+        confirmed = [o for o, i in zip(data[0], data[1])
+                     if (i != "norace ok" and C.op_body(o).split(" ")[2].partition(":")[2] in locs)
+                     or (i.startswith("RACE ") and i.split(" ")[1].split("/")[-1] in fns)]
+        if confirmed:
+            res.notes.append("broken lock-set proof confirmed by a concrete execution: " + ", ".join(C.op_body(o).split(" ")[2] for o in confirmed))
+        else:
+            C.tie_broken(res, "proof Gozod.Proofs.C14 (regenerated lock-set table)", detail)
     C.decide(res, "C14", data, key, "C14/race-scenarios", describe=describe)
     res.coverage["rule"] = ("9 scenarios (shared Parse/StrictParse; chaining incl. Record.Partial; ToJSONSchema+Parse+chaining on relatives; registry "
         "Add/Get/Has/Remove/Range + Meta/Describe; SetConfig/Config + Parse; first use of a lazy schema vs chaining (40 fresh schemas); regex-cache "
